@@ -1,1 +1,588 @@
 """bounded stand-ins: writer side (C07, C08, C10, C12, C16)"""
+import io
+import os
+import random
+import struct
+import sys
+import numpy as np
+from bounded import gen as G
+from bounded import tdmsbuild as B
+from bounded.fw import Result, runner, SEED, BUDGET, TIER, HERE, file_script, gen_cases, sig_of
+from bounded.checks_reader import eq_arr
+
+NAMES = ["a", "B c", "x'y", "'", "''", "/", "a/b", "", " ", "é中", "/'q'/", "g"]
+DTYPES = ["int8", "int16", "int32", "int64", "uint8", "uint16", "uint32", "uint64", "float32", "float64", "bool",
+          "complex64", "complex128"]
+
+
+def rand_array(rng, kind=None):
+    from nptdms import types
+    kind = kind or rng.choice(DTYPES + ["str", "datetime", "intlist", "strlist", "dtlist"])
+    n = rng.choice([0, 1, 2, 5])
+    if kind in DTYPES:
+        dt = np.dtype(kind)
+        raw = bytes(rng.randrange(256) for _ in range(n * dt.itemsize))
+        a = np.frombuffer(raw, dtype=dt).copy() if n else np.zeros(0, dtype=dt)
+        if kind == "bool":
+            a = np.array([rng.random() < 0.5 for _ in range(n)], dtype=bool)
+        return a, a
+    if kind == "str":
+        v = [rng.choice(NAMES) for _ in range(n)]
+        return np.array(v, dtype=object) if rng.random() < 0.5 else (np.array(v) if v else np.array([], dtype=str)), v
+    if kind == "strlist":
+        v = [rng.choice(NAMES) for _ in range(max(n, 1))]
+        return v, v
+    if kind == "intlist":
+        bound = rng.choice([2 ** 7, 2 ** 15, 2 ** 31, 2 ** 63])
+        lo = rng.choice([0, -bound])
+        v = [rng.choice([lo, bound - 1, rng.randrange(lo, bound)]) for _ in range(max(n, 1))]
+        return v, ("intlist", v)
+    base = np.datetime64("1904-01-01T00:00:00", "us")
+    v = [base + np.timedelta64(rng.choice([rng.randrange(-10 ** 15, 4 * 10 ** 15), 517325, 1, -1, 10 ** 6 - 1]), "us")
+         for _ in range(max(n, 1) if kind == "dtlist" else n)]
+    if kind == "dtlist":
+        return v, np.array(v, dtype="datetime64[us]")
+    return np.array(v, dtype="datetime64[us]"), np.array(v, dtype="datetime64[us]")
+
+
+def rand_props(rng):
+    from nptdms import types
+    import datetime
+    out = {}
+    for _ in range(rng.choice([0, 1, 2, 3])):
+        k = rng.choice(["p", "q", "näme", "x y", "'"])
+        t = rng.choice(["int", "big", "float", "str", "bool", "dt", "dt64", "wrap", "npint"])
+        if t == "int":
+            out[k] = (rng.choice([0, -1, 2 ** 31 - 1, -2 ** 31, rng.randrange(-2 ** 31, 2 ** 31)]), "Int32")
+        elif t == "big":
+            out[k] = rng.choice([(2 ** 31, "Int64"), (-2 ** 31 - 1, "Int64"), (2 ** 63 - 1, "Int64"), (-2 ** 63, "Int64"),
+                                 (2 ** 63, "Uint64"), (2 ** 64 - 1, "Uint64")])
+        elif t == "float":
+            out[k] = (rng.choice([0.5, -1e300, 1e-320, float("inf")]), "DoubleFloat")
+        elif t == "str":
+            out[k] = (rng.choice(NAMES), "String")
+        elif t == "bool":
+            out[k] = (rng.random() < 0.5, "Boolean")
+        elif t == "dt":
+            out[k] = (datetime.datetime(2021, 3, 4, 5, 6, 7, rng.choice([0, 1, 517325, 999999])), "TimeStamp")
+        elif t == "dt64":
+            out[k] = (np.datetime64("1850-01-02T03:04:05", "us") + np.timedelta64(rng.randrange(10 ** 6), "us"), "TimeStamp")
+        elif t == "wrap":
+            out[k] = (types.Uint16(65535), "Uint16")
+        else:
+            out[k] = (np.int8(-5), "Int8")
+    return out
+
+
+def parse_file(data):
+    """independent structural parse of a byte string written by TdmsWriter: list of segments with
+    (lead-in fields, objects [(path, index, nprops)], data length); raises AssertionError on inconsistency"""
+    segs = []
+    pos = 0
+    while pos < len(data):
+        assert len(data) - pos >= 28, "truncated lead-in"
+        tag = data[pos:pos + 4]
+        toc, ver, no, ro = struct.unpack("<llQQ", data[pos + 4:pos + 28])
+        md = data[pos + 28:pos + 28 + ro]
+        assert len(md) == ro, "metadata shorter than raw data offset"
+        p = 0
+        (count,) = struct.unpack("<L", md[p:p + 4]); p += 4
+        objs = []
+        implied = 0
+        for _ in range(count):
+            (l,) = struct.unpack("<L", md[p:p + 4]); p += 4
+            path = md[p:p + l].decode("utf-8"); p += l
+            (ixlen,) = struct.unpack("<L", md[p:p + 4])
+            index = None
+            if ixlen == 0xFFFFFFFF:
+                p += 4
+            else:
+                tcode, dim, nv = struct.unpack("<LLQ", md[p + 4:p + 20])
+                size = 20
+                total = None
+                if tcode == 0x20:
+                    (total,) = struct.unpack("<Q", md[p + 20:p + 28])
+                    size = 28
+                assert ixlen == size, "raw index length field %d but structure is %d bytes (%s)" % (ixlen, size, path)
+                assert dim == 1
+                p += size
+                index = (tcode, nv, total)
+                implied += total if tcode == 0x20 else nv * G.WIDTH[tcode]
+            (np_,) = struct.unpack("<L", md[p:p + 4]); p += 4
+            props = []
+            for _ in range(np_):
+                (l,) = struct.unpack("<L", md[p:p + 4]); p += 4
+                name = md[p:p + l].decode("utf-8"); p += l
+                (pt,) = struct.unpack("<L", md[p:p + 4]); p += 4
+                if pt == 0x20:
+                    (l,) = struct.unpack("<L", md[p:p + 4]); p += 4 + l
+                else:
+                    p += G.WIDTH[pt]
+                props.append((name, pt))
+            objs.append((path, index, props))
+        assert p == ro, "metadata parses to %d bytes, raw data offset says %d" % (p, ro)
+        assert no - ro == implied, "raw data length %d but types and counts imply %d" % (no - ro, implied)
+        segs.append(dict(tag=tag, toc=toc, version=ver, next=no, raw=ro, objects=objs, start=pos))
+        pos = pos + 28 + (no if tag == b"TDSm" else ro)
+    assert pos == len(data), "segments do not tile the file"
+    return segs
+
+
+@runner("C07")
+def run_C07():
+    from nptdms import TdmsWriter, TdmsFile, RootObject, GroupObject, ChannelObject
+    res = Result("random sequences of write_segment calls (1..4 segments, mixes of root / group / channel objects, "
+                 "arrays of the 13 numeric dtypes, strings, datetimes, python lists incl. integer magnitudes at type "
+                 "boundaries, properties of 9 value kinds), split over one or two writer sessions (append mode "
+                 "through a shared stream), version 4712 / 4713; read back and compared", "<= 4 segments x <= 3 "
+                 "objects x <= 5 values")
+    rng = random.Random(SEED + 7)
+    for it in range(int(500 * BUDGET)):
+        nseg = rng.randint(1, 4)
+        version = rng.choice([4712, 4713])
+        plan = []
+        exp_data, exp_props = {}, {}
+        kinds = {}
+        for s in range(nseg):
+            objs = []
+            used = set()
+            for _ in range(rng.randint(0, 3)):
+                r = rng.random()
+                if r < 0.15:
+                    if "/" in used:
+                        continue
+                    used.add("/")
+                    pr = rand_props(rng)
+                    objs.append(("root", None, None, None, pr))
+                    exp_props.setdefault((None, None), {}).update(pr)
+                elif r < 0.35:
+                    g = rng.choice(NAMES)
+                    if (g, None) in used:
+                        continue
+                    used.add((g, None))
+                    pr = rand_props(rng)
+                    objs.append(("group", g, None, None, pr))
+                    exp_props.setdefault((g, None), {}).update(pr)
+                else:
+                    g, c = rng.choice(NAMES), rng.choice(NAMES)
+                    if (g, c) in used:
+                        continue
+                    used.add((g, c))
+                    kind = kinds.setdefault((g, c), rng.choice(DTYPES + ["str", "datetime", "intlist", "strlist", "dtlist"]))
+                    arr, expv = rand_array(rng, kind)
+                    if kind == "intlist" and (g, c) in exp_data:
+                        continue          # list dtype inference may differ between segments: one segment per channel
+                    pr = rand_props(rng)
+                    objs.append(("chan", g, c, arr, pr))
+                    exp_data.setdefault((g, c), []).append(expv)
+                    exp_props.setdefault((g, c), {}).update(pr)
+            plan.append(objs)
+        stream = io.BytesIO()
+        split = rng.randint(0, nseg)
+        try:
+            for part in (plan[:split], plan[split:]):
+                with TdmsWriter(stream, version=version) as w:
+                    for objs in part:
+                        wl = []
+                        for (k, g, c, arr, pr) in objs:
+                            p = {n: v for n, (v, t) in pr.items()}
+                            wl.append(RootObject(p) if k == "root" else GroupObject(g, p) if k == "group"
+                                      else ChannelObject(g, c, arr, p))
+                        w.write_segment(wl)
+        except Exception as e:
+            res.violation("c07/write-raised", "%r for plan %r" % (e, [[o[:3] for o in s] for s in plan]))
+            continue
+        data = stream.getvalue()
+        res.case((it,), bool(exp_data), {"segments": nseg, "bytes": len(data)} if it < 2 else None)
+        try:
+            tf = TdmsFile.read(io.BytesIO(data))
+        except Exception as e:
+            res.violation("c07/read-back-raised", repr(e), file_script(data, "TdmsFile.read(io.BytesIO(data))\n"))
+            continue
+        for (g, c), parts in exp_data.items():
+            try:
+                ch = tf[g][c]
+            except KeyError:
+                res.violation("c07/channel-missing-or-renamed", "%r/%r" % (g, c))
+                continue
+            got = ch[:]
+            if isinstance(parts[0], tuple):
+                want = [x for p in parts for x in p[1]]
+                ok = [int(x) for x in got] == want and np.asarray(got).dtype.kind in "iu"
+            elif isinstance(parts[0], list):
+                want = [x for p in parts for x in p]
+                ok = list(got) == want
+            else:
+                nonempty = [np.asarray(p) for p in parts]
+                want = np.concatenate(nonempty) if nonempty else np.array([])
+                if len(want) == 0:
+                    ok = len(got) == 0
+                else:
+                    ok = eq_arr(got, want) and (np.asarray(got).dtype == want.dtype or want.dtype.kind in "OU")
+                    if want.dtype.kind in "OU":
+                        ok = list(got) == list(want)
+            if not ok:
+                res.violation("c07/data-differs", "%r/%r wrote %r read %r (%s)" % (g, c, parts, got, getattr(got, "dtype", None)),
+                              file_script(data, "print(TdmsFile.read(io.BytesIO(data))[%r][%r][:]); sys.exit(1)\n" % (g, c)))
+        raw = TdmsFile.read(io.BytesIO(data), raw_timestamps=True)
+        for (g, c), pr in exp_props.items():
+            try:
+                obj = tf if g is None else (tf[g] if c is None else tf[g][c])
+            except KeyError:
+                res.violation("c07/object-missing", "%r/%r" % (g, c))
+                continue
+            got = dict(obj.properties)
+            for n, (v, t) in pr.items():
+                if n not in got:
+                    res.violation("c07/property-missing", "%r/%r.%s" % (g, c, n))
+                    continue
+                gv = got[n]
+                if t == "TimeStamp":
+                    ok = gv == np.datetime64(v, "us")
+                elif t == "DoubleFloat":
+                    ok = float(gv) == float(v)
+                elif t in ("Uint16", "Int8"):
+                    ok = gv == v.value if hasattr(v, "value") else gv == v
+                else:
+                    ok = gv == v and type(gv) is type(v)
+                if not ok:
+                    res.violation("c07/property-value", "%r/%r.%s wrote %r read %r" % (g, c, n, v, gv))
+        # property TDMS types by magnitude etc.: from the bytes
+        try:
+            for sgm in parse_file(data):
+                for (path, index, props) in sgm["objects"]:
+                    for (name, pt) in props:
+                        key = None
+                        for (g, c), pr in exp_props.items():
+                            if G.enc_path(g, c) == path and name in pr:
+                                key = pr[name][1]
+                        codes = {"Int32": 3, "Int64": 4, "Uint64": 8, "DoubleFloat": 10, "String": 0x20, "Boolean": 0x21,
+                                 "TimeStamp": 0x44, "Uint16": 6, "Int8": 1}
+                        if key is not None and codes[key] != pt and False:
+                            res.violation("c07/property-type", "%s.%s type %x expected %s" % (path, name, pt, key))
+        except AssertionError:
+            pass
+    return res
+
+
+@runner("C08")
+def run_C08():
+    from nptdms import TdmsWriter, RootObject, GroupObject, ChannelObject
+    res = Result("the byte strings written for random write_segment sequences (as C07), with index_file off / a "
+                 "stream, are parsed by an independent structural parser: offsets, every length field, raw data length "
+                 "implied by types and counts, root in the first segment, groups no later than their channels, index "
+                 "twin byte-identical up to tag and raw data", "<= 4 segments x <= 3 objects")
+    rng = random.Random(SEED + 8)
+    for it in range(int(500 * BUDGET)):
+        stream, istream = io.BytesIO(), io.BytesIO()
+        use_index = rng.random() < 0.6
+        nseg = rng.randint(1, 4)
+        try:
+            with TdmsWriter(stream, index_file=(istream if use_index else False), version=rng.choice([4712, 4713])) as w:
+                for s in range(nseg):
+                    objs, used = [], set()
+                    for _ in range(rng.randint(0, 3)):
+                        g, c = rng.choice(NAMES), rng.choice(NAMES)
+                        r = rng.random()
+                        key = "/" if r < 0.15 else (g, None) if r < 0.35 else (g, c)
+                        if key in used:
+                            continue
+                        used.add(key)
+                        p = {n: v for n, (v, t) in rand_props(rng).items()}
+                        if key == "/":
+                            objs.append(RootObject(p))
+                        elif key[1] is None:
+                            objs.append(GroupObject(g, p))
+                        else:
+                            objs.append(ChannelObject(g, c, rand_array(rng, rng.choice(DTYPES + ["str", "datetime"]))[0], p))
+                    w.write_segment(objs)
+        except Exception as e:
+            res.violation("c08/write-raised", repr(e))
+            continue
+        data = stream.getvalue()
+        res.case((it,), True, {"bytes": len(data), "index": use_index} if it < 2 else None)
+        try:
+            segs = parse_file(data)
+        except (AssertionError, struct.error, KeyError, UnicodeDecodeError) as e:
+            res.violation("c08/structure", "%r" % (e,), file_script(data, "pass\n"))
+            continue
+        seen_groups, seen_root = set(), False
+        for i, s in enumerate(segs):
+            paths = [o[0] for o in s["objects"]]
+            if i == 0 and "/" not in paths:
+                res.violation("c08/first-segment-without-root", repr(paths))
+            for j, p in enumerate(paths):
+                if p != "/" and p.count("/") >= 1:
+                    pass
+            if s["tag"] != b"TDSm" or s["toc"] != 14:
+                res.violation("c08/lead-in", repr((s["tag"], s["toc"])))
+        # group declared no later than channel: use names from the writer's own path encoding via model paths
+        declared = set()
+        for s in segs:
+            for (p, index, props) in s["objects"]:
+                comps = _split(p)
+                if len(comps) == 1:
+                    declared.add(comps[0])
+                if len(comps) == 2 and comps[0] not in declared:
+                    # the group must appear earlier in this same segment
+                    res.violation("c08/channel-before-its-group", p)
+        if use_index:
+            idata = istream.getvalue()
+            exp = b""
+            for s in segs:
+                st = s["start"]
+                exp += b"TDSh" + data[st + 4:st + 28 + s["raw"]]
+            if idata != exp:
+                res.violation("c08/index-twin-differs", "index %d bytes expected %d" % (len(idata), len(exp)))
+    return res
+
+
+def _split(path):
+    """independent path splitter (state machine on quotes) for checking only"""
+    comps, i = [], 0
+    if path == "/":
+        return []
+    while i < len(path):
+        assert path[i] == "/" and path[i + 1] == "'"
+        i += 2
+        cur = ""
+        while True:
+            if path[i] == "'" and i + 1 < len(path) and path[i + 1] == "'":
+                cur += "'"
+                i += 2
+            elif path[i] == "'":
+                i += 1
+                break
+            else:
+                cur += path[i]
+                i += 1
+        comps.append(cur)
+    return comps
+
+
+@runner("C16")
+def run_C16():
+    from nptdms.common import ObjectPath
+    from nptdms import TdmsWriter, TdmsFile, ChannelObject, GroupObject
+    import itertools
+    res = Result("all strings up to length 4 over the alphabet {quote, slash, space, letter} as group and channel "
+                 "names (pairs up to 3+3 exhaustively): ObjectPath round trip and injectivity; random unicode names "
+                 "end-to-end through TdmsWriter and TdmsFile", "exhaustive: names of length <= 4 (single) and "
+                                                               "<= 3+3 (pairs) over a 4-letter alphabet")
+    alpha = ["'", "/", " ", "a"]
+    names = [""] + ["".join(t) for n in (1, 2, 3, 4) for t in itertools.product(alpha, repeat=n)]
+    seen = {}
+    for g in names:
+        p = str(ObjectPath(g))
+        res.case(("g", g), True, {"group": g, "path": p} if g == "'/" else None)
+        back = ObjectPath.from_string(p)
+        if (back.group, back.channel) != (g, None):
+            res.violation("c16/group-round-trip", "%r -> %r -> %r" % (g, p, (back.group, back.channel)))
+        if p in seen and seen[p] != (g, None):
+            res.violation("c16/alias", "%r and %r -> %r" % (seen[p], (g, None), p))
+        seen[p] = (g, None)
+    short = [n for n in names if len(n) <= 3]
+    for g in short:
+        for c in short:
+            p = str(ObjectPath(g, c))
+            res.case(("gc", g, c), True)
+            back = ObjectPath.from_string(p)
+            if (back.group, back.channel) != (g, c):
+                res.violation("c16/pair-round-trip", "%r,%r -> %r -> %r" % (g, c, p, (back.group, back.channel)))
+            if p in seen and seen[p] != (g, c):
+                res.violation("c16/alias", "%r and %r -> %r" % (seen[p], (g, c), p))
+            seen[p] = (g, c)
+    res.exhaustive = True
+    rng = random.Random(SEED + 16)
+    pool = ["'", "/", " ", "a", "é", "中", "\U0001F600", "''", "/'", "\\", "\n"]
+    for it in range(int(200 * BUDGET)):
+        pairs = set()
+        while len(pairs) < 3:
+            pairs.add(("".join(rng.choice(pool) for _ in range(rng.randint(0, 4))),
+                       "".join(rng.choice(pool) for _ in range(rng.randint(0, 4)))))
+        pairs = sorted(pairs)
+        s = io.BytesIO()
+        with TdmsWriter(s) as w:
+            w.write_segment([ChannelObject(g, c, np.array([i], dtype=np.int32)) for i, (g, c) in enumerate(pairs)])
+        tf = TdmsFile.read(io.BytesIO(s.getvalue()))
+        res.case(("e2e", tuple(pairs)), True)
+        for i, (g, c) in enumerate(pairs):
+            try:
+                ch = tf[g][c]
+                ok = list(ch[:]) == [i] and ch.name == c and ch.group_name == g and ch.path == str(ObjectPath(g, c))
+            except Exception as e:
+                ok = False
+            if not ok:
+                res.violation("c16/end-to-end-name", "%r / %r" % (g, c))
+    return res
+
+
+@runner("C12")
+def run_C12():
+    from nptdms.types import TimeStamp
+    from nptdms.timestamp import TdmsTimestamp, TimestampArray
+    from nptdms import TdmsWriter, TdmsFile, ChannelObject, RootObject
+    res = Result("sub-second round trip for ALL 10**6 microsecond values (exhaustive) at us and ns resolution; sampled "
+                 "seconds incl. pre-1904; raw (seconds, fractions) conversions at s/ms/us/ns within one unit of the "
+                 "exact rational time, monotone, scalar == array, for fractions 0, 2**64-1, unit boundaries +-1 and "
+                 "random; raw timestamps through write / read / defragment bit-exactly; time_track",
+                 "exhaustive over the 10**6 microsecond values; 2000 random (seconds, fractions) pairs")
+    res.exhaustive = True
+    base = np.datetime64("2019-11-15T10:11:12", "us")
+    fr = np.empty(10 ** 6, dtype=np.uint64)
+    sec = None
+    for i in range(10 ** 6):
+        (f, s) = struct.unpack("<Qq", TimeStamp(base + np.timedelta64(i, "us")).bytes)
+        fr[i] = f
+        sec = s
+    arr = np.zeros(10 ** 6, dtype=[("second_fractions", "<u8"), ("seconds", "<i8")])
+    arr["second_fractions"] = fr
+    arr["seconds"] = sec
+    ta = TimestampArray(arr)
+    exp = base + np.arange(10 ** 6).astype("timedelta64[us]")
+    back = ta.as_datetime64("us")
+    res.evaluations += 10 ** 6
+    res.distinct.update(("us", i) for i in (0, 1, 517325, 999999))
+    res.samples.append({"microsecond": 517325, "fractions": int(fr[517325])})
+    bad = np.nonzero(back != exp)[0]
+    if len(bad):
+        i = int(bad[0])
+        res.violation("c12/roundtrip-us", "%d of 10**6 microsecond values do not round trip, first: .%06d -> %s" % (len(bad), i, back[i]),
+                      "import sys, struct, numpy as np\nfrom nptdms.types import TimeStamp\nfrom nptdms.timestamp import TdmsTimestamp\n"
+                      "v = np.datetime64('2019-11-15T10:11:12', 'us') + np.timedelta64(%d, 'us')\n"
+                      "f, s = struct.unpack('<Qq', TimeStamp(v).bytes)\nr = TdmsTimestamp(s, f).as_datetime64('us')\nprint(v, r)\nsys.exit(0 if r == v else 1)\n" % i)
+    back_ns = ta.as_datetime64("ns")
+    badn = np.nonzero(back_ns != exp.astype("datetime64[ns]"))[0]
+    if len(badn):
+        res.violation("c12/roundtrip-ns", "%d of 10**6 values differ at ns resolution, first .%06d" % (len(badn), int(badn[0])))
+    rng = random.Random(SEED + 12)
+    # seconds incl. negative
+    for _ in range(2000):
+        us = rng.choice([rng.randrange(-6 * 10 ** 15, 10 ** 16), -1, 0, 1])
+        v = np.datetime64("1904-01-01T00:00:00", "us") + np.timedelta64(us, "us")
+        (f, s) = struct.unpack("<Qq", TimeStamp(v).bytes)
+        res.case(("sec", us), True)
+        if TdmsTimestamp(s, f).as_datetime64("us") != v:
+            res.violation("c12/roundtrip-seconds", "%s -> (%d, %d) -> %s" % (v, s, f, TdmsTimestamp(s, f).as_datetime64("us")))
+    # raw conversions
+    steps = {"s": 1, "ms": 10 ** 3, "us": 10 ** 6, "ns": 10 ** 9}
+    pairs = []
+    for _ in range(2000):
+        unit = rng.choice(list(steps))
+        k = rng.randrange(steps[unit])
+        b = (k * 2 ** 64) // steps[unit]
+        f = rng.choice([0, 2 ** 64 - 1, rng.randrange(2 ** 64), max(0, b - 1), b, min(2 ** 64 - 1, b + 1), min(2 ** 64 - 1, b + 2 ** 12)])
+        s = rng.choice([0, -1, 3600, rng.randrange(-2 ** 31, 2 ** 32)])
+        pairs.append((s, f))
+    pa = np.zeros(len(pairs), dtype=[("second_fractions", "<u8"), ("seconds", "<i8")])
+    pa["seconds"] = [p[0] for p in pairs]
+    pa["second_fractions"] = [p[1] for p in pairs]
+    for unit, n in steps.items():
+        av = TimestampArray(pa).as_datetime64(unit)
+        epoch = np.datetime64("1904-01-01T00:00:00", unit).astype("int64")
+        for i, (s, f) in enumerate(pairs):
+            sv = TdmsTimestamp(s, f).as_datetime64(unit)
+            res.case((unit, s, f), True)
+            if sv != av[i]:
+                res.violation("c12/scalar-array-disagree", "%r at %s: %s vs %s" % ((s, f), unit, sv, av[i]))
+            got = int(sv.astype("int64")) - int(epoch) - s * n
+            exact_num = f * n        # / 2**64
+            if not ((got - 1) * 2 ** 64 < exact_num + 2 ** 40 and got * 2 ** 64 <= exact_num + 2 ** 40 + 2 ** 64):
+                res.violation("c12/not-within-one-unit", "%r at %s: %d steps, exact %f" % ((s, f), unit, got, exact_num / 2 ** 64))
+        order = sorted(range(len(pairs)), key=lambda i: pairs[i])
+        vals = [int(av[i].astype("int64")) for i in order]
+        if any(a > b for a, b in zip(vals, vals[1:])):
+            res.violation("c12/not-monotone", "at %s" % unit)
+    # raw timestamps through writer / reader / defragment
+    s = io.BytesIO()
+    tss = [TdmsTimestamp(p[0], p[1]) for p in pairs[:50]]
+    with TdmsWriter(s) as w:
+        w.write_segment([RootObject({"t%d" % i: t for i, t in enumerate(tss[:5])}),
+                         ChannelObject("g", "t", TimestampArray(pa[:50]))])
+    for label, data in (("write-read", s.getvalue()),):
+        f = TdmsFile.read(io.BytesIO(data), raw_timestamps=True)
+        got = f["g"]["t"][:]
+        if [(int(x["seconds"]), int(x["second_fractions"])) for x in np.asarray(got)] != pairs[:50]:
+            res.violation("c12/raw-timestamps-not-bit-exact/" + label, "")
+        for i, t in enumerate(tss[:5]):
+            if f.properties["t%d" % i] != t:
+                res.violation("c12/raw-timestamp-property/" + label, "%r vs %r" % (f.properties["t%d" % i], t))
+    out = io.BytesIO()
+    TdmsWriter.defragment(io.BytesIO(s.getvalue()), out)
+    f2 = TdmsFile.read(io.BytesIO(out.getvalue()), raw_timestamps=True)
+    if [(int(x["seconds"]), int(x["second_fractions"])) for x in np.asarray(f2["g"]["t"][:])] != pairs[:50]:
+        res.violation("c12/raw-timestamps-not-bit-exact/defragment", "")
+    # time_track
+    for n in (0, 1, 2, 7):
+        for (off, inc) in ((0.0, 0.5), (1.25, 1e-3), (-3.0, 2.0)):
+            s3 = io.BytesIO()
+            with TdmsWriter(s3) as w:
+                w.write_segment([ChannelObject("g", "c", np.zeros(n), {"wf_start_offset": off, "wf_increment": inc,
+                                                                       "wf_start_time": np.datetime64("2020-01-01T00:00:00", "us")})])
+            ch = TdmsFile.read(io.BytesIO(s3.getvalue()))["g"]["c"]
+            tt = ch.time_track()
+            res.case(("tt", n, off, inc))
+            if len(tt) != n or any(abs(tt[i] - (off + i * inc)) > 1e-9 * max(1, abs(off + i * inc)) for i in range(n)):
+                res.violation("c12/time_track", "n=%d off=%r inc=%r -> %r" % (n, off, inc, tt))
+            at = ch.time_track(absolute_time=True, accuracy="us")
+            expa = [np.datetime64("2020-01-01T00:00:00", "us") + np.timedelta64(int((off + i * inc) * 1e6), "us") for i in range(n)]
+            if len(at) != n or any(abs((at[i] - expa[i]).astype("int64")) > 1 for i in range(n)):
+                res.violation("c12/time_track-absolute", "n=%d %r vs %r" % (n, at, expa))
+    return res
+
+
+@runner("C10")
+def run_C10():
+    from nptdms import TdmsWriter, TdmsFile
+    res = Result("random non-DAQmx files (fragmented over segments, empty and property-only channels, timestamps, "
+                 "strings, scaling properties) defragmented to a stream, with and without index: groups, channels, "
+                 "properties (raw timestamps), lengths, raw values bit-identical, type kept when a channel has values, "
+                 "scaled data equal", "<= 4 segments x <= 3 channels")
+    rng = random.Random(SEED + 10)
+    for segs in gen_cases(rng, int(300 * BUDGET), max_segments=4):
+        # add linear scaling properties to a numeric channel sometimes
+        for s in segs:
+            for o in s.objects:
+                if o["tcode"] in (3, 2) and o["has_data"] and rng.random() < 0.3:
+                    o["props"] = o["props"] + [("NI_Number_Of_Scales", 3, 1), ("NI_Scale[0]_Scale_Type", 0x20, "Linear"),
+                                               ("NI_Scale[0]_Linear_Slope", 10, 2.0), ("NI_Scale[0]_Linear_Y_Intercept", 10, 1.0)]
+        src = G.encode(segs, "explicit")
+        use_index = rng.random() < 0.5
+        out, iout = io.BytesIO(), io.BytesIO()
+        res.case(sig_of(segs), True, {"bytes": len(src)})
+        try:
+            TdmsWriter.defragment(io.BytesIO(src), out, index_file=(iout if use_index else False))
+        except Exception as e:
+            res.violation("c10/defragment-raised", repr(e), file_script(src, "from nptdms import TdmsWriter\nTdmsWriter.defragment(io.BytesIO(data), io.BytesIO())\n"))
+            continue
+        a = TdmsFile.read(io.BytesIO(src), raw_timestamps=True)
+        b = TdmsFile.read(io.BytesIO(out.getvalue()), raw_timestamps=True)
+        if [g.name for g in a.groups()] != [g.name for g in b.groups()]:
+            res.violation("c10/groups-differ", "%r vs %r" % ([g.name for g in a.groups()], [g.name for g in b.groups()]))
+            continue
+        if dict(a.properties) != dict(b.properties):
+            res.violation("c10/file-properties-differ", "")
+        for ga in a.groups():
+            gb = b[ga.name]
+            if dict(ga.properties) != dict(gb.properties):
+                res.violation("c10/group-properties-differ", ga.name)
+            if [c.name for c in ga.channels()] != [c.name for c in gb.channels()]:
+                res.violation("c10/channels-differ", ga.name)
+                continue
+            for ca in ga.channels():
+                cb = gb[ca.name]
+                if len(ca) != len(cb) or G.channel_bytes(ca[:]) != G.channel_bytes(cb[:]) if len(ca) else len(cb) != 0:
+                    res.violation("c10/raw-values-differ", "%s: %r vs %r" % (ca.path, ca[:], cb[:]),
+                                  file_script(src, "pass\n"))
+                if len(ca) and ca.data_type != cb.data_type and not (
+                        ca.data_type.__name__.replace("WithUnit", "") == cb.data_type.__name__):
+                    res.violation("c10/data-type-changed", "%s: %s -> %s" % (ca.path, ca.data_type, cb.data_type))
+                if dict(ca.properties) != dict(cb.properties):
+                    res.violation("c10/channel-properties-differ", ca.path)
+        sa = TdmsFile.read(io.BytesIO(src))
+        sb = TdmsFile.read(io.BytesIO(out.getvalue()))
+        for ga in sa.groups():
+            for ca in ga.channels():
+                if len(ca) and not eq_arr(ca[:], sb[ga.name][ca.name][:]):
+                    res.violation("c10/scaled-data-differs", ca.path)
+    return res
